@@ -10,11 +10,16 @@ BOTH['Clipper2Lib::ClipperOffset::CalcSolutionCapacity('] = 'stub_capacity'
 META = dict(
   level_text='Stub-and-observe model checking of the sign and orientation bookkeeping of polygon offsetting: for all deltas, join types and flags, a positively oriented polygon group is offset with the signed delta of the call, the clean-up union uses FillRule::Positive with ReverseSolution/PreserveCollinear forwarded unchanged, and |delta| < 0.5 hands the input paths to the union unchanged. The region clauses (distance bands for round/miter/square/bevel joins, over-shrink) depend on sqrt/sin/cos/acos/atan2 arithmetic followed by a full union and are NOT addressed: no symbolic engine on this image encodes them.',
   level_note='Workers and the inner Clipper64 are recorders; path coordinates are concrete; only scalar parameters are symbolic. This is a mechanism-level claim about join-side/sign handling, not about geometry.',
-  functions=['ClipperOffset::ExecuteInternal', 'ClipperOffset::DoGroupOffset', 'ClipperOffset::Group::Group', 'ClipperOffset::CheckReverseOrientation'],
+  functions=['ClipperOffset::OffsetPoint', 'GetPerpendic', 'ClipperOffset::ExecuteInternal', 'ClipperOffset::DoGroupOffset', 'ClipperOffset::Group::Group', 'ClipperOffset::CheckReverseOrientation'],
   assumptions=['one or two groups of concrete small paths'],
-  outside=['all region/distance clauses', 'OffsetPoint join selection and DoRound/DoMiter/DoSquare/DoBevel geometry'],
+  outside=['all region/distance clauses', 'DoRound/DoMiter/DoSquare/DoBevel geometry', 'normals other than the eight exact directions'],
 )
+JOINS = {'Clipper2Lib::ClipperOffset::DoMiter(': 'stub_domiter', 'Clipper2Lib::ClipperOffset::DoSquare(': 'stub_dosquare', 'Clipper2Lib::ClipperOffset::DoRound(': 'stub_doround',
+         'Clipper2Lib::ClipperOffset::DoBevel(': 'stub_dobevel', 'atan2': 'stub_atan2',
+         'Clipper2Lib::Point<long>& std::vector<Clipper2Lib::Point<long>, std::allocator<Clipper2Lib::Point<long> > >::emplace_back<Clipper2Lib::Point<long> >(': 'stub_pathout_append',
+         'Clipper2Lib::Point<long>& std::vector<Clipper2Lib::Point<long>, std::allocator<Clipper2Lib::Point<long> > >::emplace_back<Clipper2Lib::Point<long> const&>(': 'stub_pathout_append_c'}
 OBLIGATIONS = [
+  O('C06.a-offsetpoint-join-selection', 'off_dispatch.cpp', 'harness_offsetpoint', replace=JOINS, unwind=8, backend=['cadical', 'kissat', 'sat'], timeout=600, bound='unit normals from 8 exact directions (axis-parallel and 3-4-5), all deltas 0.5..1e6 of either sign, all join types, miter limits 0..10', desc='OffsetPoint: concave turns (towards the offset side) emit offset-vertex-offset; convex turns call the join the join type names; miter falls back to square beyond the limit; near-straight joins are mitered'),
   O('C06.c-polygon-rules-reversed-3', 'off_dispatch.cpp', 'harness_dispatch_rules', defs=['LEN1=3', 'REVERSED'], replace=OFFW, unwind=8, bound='one negatively oriented triangle (reversed convention), all deltas (inflate up to 1e6)', desc='a negatively oriented polygon group is offset with the negated delta and is never dropped when inflating'),
   O('C06.c-polygon-rules-reversed-4', 'off_dispatch.cpp', 'harness_dispatch_rules', defs=['LEN1=4', 'REVERSED'], replace=OFFW, unwind=8, tiers='t', bound='one negatively oriented quadrilateral', desc='as above'),
   O('C06.c-orientation-bookkeeping', 'off_dispatch.cpp', 'harness_groups_independent', defs=['LEN0=3'], replace=BOTH, unwind=8, bound='two groups (triangle, triangle), all deltas / join / end types / flags', desc='signed delta reaches the Polygon worker; union = Positive fill, ReverseSolution and PreserveCollinear forwarded'),
